@@ -435,6 +435,12 @@ func getHorizontalTileIdOnPoint(lon float64, lat float64, hZoom int64) string {
 	// 経度方向のインデックスの計算
 	lonIndex := math.Floor(math.Pow(2, float64(hZoom)) * ((lon + 180.0) / 360.0))
 
+	// 180未満の経度でも(lon + 180.0)が360に丸められるとインデックスが範囲外(2^hZoom)となるため、
+	// 東端のタイルインデックスに補正する
+	if maxIndex := math.Pow(2, float64(hZoom)) - 1; lonIndex > maxIndex {
+		lonIndex = maxIndex
+	}
+
 	// 緯度をラジアンに変換
 	latRadian := common.DegreeToRadian(lat)
 
